@@ -489,7 +489,8 @@ func (doc *T) derefPaths(paths map[string]*PathItem, refNameResolver RefNameReso
 			for _, name := range componentNames(op.Callbacks) {
 				cb := op.Callbacks[name]
 				isExternal := doc.addCallbackToSpec(cb, refNameResolver, pathIsExternal)
-				if cb != nil && cb.Value != nil {
+				// an operation of a callback may refer to that callback again
+				if cb != nil && cb.Value != nil && !doc.isVisitedCallback(cb.Value) {
 					cbValue := (*cb.Value).Map()
 					doc.derefPaths(cbValue, refNameResolver, pathIsExternal || isExternal)
 				}
